@@ -735,7 +735,7 @@ func checkNetworkControl(c *fw.Ctx) {
 	if fn != nil && len(fn.AnonFuncs) == 1 {
 		ctl := fn.AnonFuncs[0]
 		requireOnSuccess(c, rule, "allowDenyNetworksControl", ctl, []need{
-			{"the network is tcp4 or tcp6", []lit{{[]string{`(param:network == "tcp4")`}, true}, {[]string{`(param:network == "tcp6")`}, true}}},
+			{what: "the network is tcp4 or tcp6", alts: []lit{{[]string{`(param:network == "tcp4")`}, true}, {[]string{`(param:network == "tcp6")`}, true}}},
 			nd("the address splits into host and port", true, "net.SplitHostPort(param:address)#2 == nil)"),
 			nd("the host is an IP address", false, "(net.ParseIP(net.SplitHostPort(param:address)#0) == nil)"),
 			nd("the address is allowed", true, "gmsl/fclient.isAllowed(net.ParseIP(net.SplitHostPort(param:address)#0),"),
